@@ -7,6 +7,11 @@ relative order of all method bodies across connections is generated data.  Oracl
 equal its solo run (same scripts over a private socket pair, one connection) with the pure-Python model as arbiter;
 no stream-state object is seen by method bodies of two different connections; a connection never reaches a method
 body while ``max_connections`` other connections are being served and still open.
+
+Clients listed in ``abandon`` hang up when they find themselves queued behind max_connections; the controller then
+looks 0.7 s for a still-queued client being admitted.  Family ``startup``: all clients connect while the
+implementation's ``on_serve_start`` hook (fired by the first connection) is held open; no method body may run before
+it returns, and every client still observes its solo results.
 """
 
 from __future__ import annotations
